@@ -115,6 +115,8 @@ func (r *runner) step(c *dh.Cmd, silent bool) (accepted bool) {
 	return accepted
 }
 
+var nAutoCtx = 3
+
 var autoCtx = []dh.Ctx{
 	{Dc: "dc1"},
 	{Dc: "dc1", Op: "tcp"},
@@ -123,7 +125,7 @@ var autoCtx = []dh.Ctx{
 
 func (r *runner) autoCompile(svcs []string) {
 	for _, s := range svcs {
-		for i := range autoCtx {
+		for i := range autoCtx[:nAutoCtx] {
 			ctx := autoCtx[i]
 			r.step(&dh.Cmd{T: "compile", Svc: s, Ctx: &ctx, Src: "direct"}, false)
 		}
@@ -413,10 +415,14 @@ func main() {
 	svcs := fs.String("svcs", "a,b,c", "services compiled by -auto")
 	reps := fs.Int("reps", 5, "compilations per compile command")
 	wd := fs.Duration("watchdog", dh.Watchdog, "bound of one compilation")
+	actx := fs.Int("actx", 3, "number of evaluation contexts compiled directly by -auto (1..3)")
 	debug := fs.Bool("debug", false, "record the complete distinct outputs of compile commands")
 	_ = fs.Parse(os.Args[2:])
 	dh.Watchdog = *wd
 	dh.Debug = *debug
+	if *actx >= 1 && *actx <= len(autoCtx) {
+		nAutoCtx = *actx
+	}
 	switch os.Args[1] {
 	case "replay":
 		replay(*in, *out, *auto, *lastonly, strings.Split(*svcs, ","), *reps, *seed)
